@@ -10,7 +10,7 @@ LEVEL = "fault_enumeration"
 ENGINE = "E2 detgrid"
 TECHNIQUE = ("Hypothesis-generated publish histories (1-3 versions, SDMF/MDMF) followed by adversarial share plans that know the share formats: numeric header/offset fields set "
              "to boundary values, byte flips inside every named region (root hash, IV/salt, verification key, signature, share hash chain, block hash tree, blocks, encrypted "
-             "private key), truncation at field boundaries, substitution by older versions / other share numbers / another file's validly signed shares, and consistent "
+             "private key), truncation at field boundaries, a pristine duplicate of a share number on a second server, substitution by older versions / other share numbers / another file's validly signed shares, and consistent "
              "grafts of regions from an older version or from another key into a newer share; oracle = result is the plaintext of a published version or an error")
 RULE = ("each case: k<=3, N<=5, 1-5 segments, a file published 1-3 times with known contents (snapshots of all share files kept per version) and a sibling file created with "
         "another key; 1-4 damages applied to chosen shares; then reads by a fresh write-cap client and a fresh read-cap client under a drawn schedule. Oracle: each read "
@@ -18,7 +18,7 @@ RULE = ("each case: k<=3, N<=5, 1-5 segments, a file published 1-3 times with kn
         "shares the read must succeed. Non-trivial = at least one damaged share; distinct by whole case.")
 LEVEL_TEXT = "Fault-plan search by a generator that knows both mutable share formats, including internally consistent forgeries that lack only a valid signature."
 ASSUMPTIONS = ["RSA signatures and SHA-256d are not broken (forgeries reuse existing signatures or use another key)", "servers answer every request (availability under server faults is C47/C11)"]
-REQUIRED_CLASSES = ["set", "flip", "trunc", "swap-older", "swap-otherfile", "graft-older", "graft-otherfile", "read-ok", "read-failed", "sdmf", "mdmf", "k-intact", "returned-older-version"]
+REQUIRED_CLASSES = ["dup", "set", "flip", "trunc", "swap-older", "swap-otherfile", "graft-older", "graft-otherfile", "read-ok", "read-failed", "sdmf", "mdmf", "k-intact", "returned-older-version"]
 BUDGET = {"quick": 900, "thorough": 7200}
 GRAFTS = [["share_data"], ["share_data", "block_hash_tree"], ["share_data", "block_hash_tree", "share_hash_chain"], ["share_data", "block_hash_tree", "share_hash_chain", "root_hash"],
           ["signature"], ["pubkey"], ["pubkey", "signature"], ["root_hash", "seqnum"], ["seqnum"], ["IV"], ["salt0"], ["enc_privkey"],
@@ -43,6 +43,7 @@ def cases(draw):
         st.tuples(st.just("swap"), which, st.sampled_from(["older", "older-othershnum", "othershnum", "otherfile", "otherfile-othershnum"]), st.integers(0, 5), st.just(0)),
         st.tuples(st.just("graft"), which, st.sampled_from(["older", "otherfile"]), st.integers(0, len(GRAFTS) - 1), st.just(0)),
         st.tuples(st.just("delete"), which, st.just(""), st.just(0), st.just(0)),
+        st.tuples(st.just("dup"), which, st.just(""), st.integers(0, 4), st.just(0)),
     ).map(list)
     return {"fmt": draw(st.sampled_from(["sdmf", "mdmf"])), "k": k, "n": n, "seg": seg, "versions": draw(st.lists(st.integers(0, 5 * seg), min_size=1, max_size=3)),
             "damage": draw(st.lists(dmg, min_size=1, max_size=4)), "sched": draw(st.lists(st.integers(0, 9), max_size=40))}
@@ -178,6 +179,20 @@ def run_case(case, ctx):
                             else:
                                 mut_share.patch(p, a, (piece + b"\0" * (b - a))[:b - a])
                     classes.add("graft-" + d[2])
+                elif kind == "dup":
+                    # a second server also holds this share number (pristine copy of the newest version); later damages may hit either copy
+                    tgt = (sidx + 1 + d[3]) % len(g.servers)
+                    from allmydata.storage.common import storage_index_to_dir
+                    dd = os.path.join(g.servers[tgt].ss.sharedir, storage_index_to_dir(si))
+                    tp = os.path.join(dd, "%d" % shnum)
+                    if tgt == sidx or os.path.exists(tp) or (sidx, shnum) not in newest:
+                        continue
+                    os.makedirs(dd, exist_ok=True)
+                    open(tp, "wb").write(newest[(sidx, shnum)])
+                    newest[(tgt, shnum)] = newest[(sidx, shnum)]
+                    shares.append((tgt, shnum, tp))
+                    classes.add("dup")
+                    continue
                 elif kind == "delete":
                     os.unlink(p)
                     classes.add("delete")
